@@ -124,7 +124,7 @@ def load_unit(name):
     u.setdefault("functions", [])
     u.setdefault("native", False)
     u.setdefault("witness_defs", [])
-    u.setdefault("solver", "minisat")
+    u.setdefault("solver", "kissat")
     u.setdefault("flags", [])
     u.setdefault("tiers", ["quick", "thorough"])
     u.setdefault("trusted", [])
